@@ -54,6 +54,8 @@ structure Flags where
   docSetNodesRebuildsPointers : Bool
   docSetNodesClearsFamilies : Bool
   docSetNodesResetsIndividuals : Bool
+  /-- `Document.AddNode` does `familyLinksVersion++` -/
+  docAddBumpsLinks : Bool
 deriving Repr, DecidableEq
 
 /-- a fact that could not be located (`none`) is taken at the value of correct code: the tie for
@@ -79,6 +81,7 @@ def Flags.ofRaw (r : Generated.RawCacheFlags) : Flags where
   docSetNodesRebuildsPointers := r.docSetNodesRebuildsPointers.getD true
   docSetNodesClearsFamilies := r.docSetNodesClearsFamilies.getD true
   docSetNodesResetsIndividuals := r.docSetNodesResetsIndividuals.getD true
+  docAddBumpsLinks := r.docAddBumpsLinks.getD true
 
 /-- the flags of the code as it is in /repo now -/
 def flags : Flags := Flags.ofRaw Generated.rawCacheFlags
@@ -86,7 +89,7 @@ def flags : Flags := Flags.ofRaw Generated.rawCacheFlags
 /-- every invalidation present: the flags the theorems are proved for -/
 def Flags.good : Flags :=
   ⟨true, true, true, true, true, true, true, true, true, true, true, true, true, true, true, true, true,
-   true, true, true⟩
+   true, true, true, true⟩
 
 /-- the invalidations coherence depends on.  The three flags not listed are redundant given
     these: `SetHusbandPointer`/`SetWifePointer` clear the cached flag, but they go through
@@ -98,7 +101,7 @@ def Flags.sufficient (f : Flags) : Bool :=
   f.docDeleteClearsFamilies && f.docDeleteResetsIndividuals && f.addIndividualResetsIndividuals &&
   f.familyAddResetsCaches && f.familyDeleteResetsCaches && f.familySetNodesResetsCaches &&
   f.deleteNodesWithTagCopies && f.warningsReadOnly && f.docSetNodesRebuildsPointers &&
-  f.docSetNodesClearsFamilies && f.docSetNodesResetsIndividuals
+  f.docSetNodesClearsFamilies && f.docSetNodesResetsIndividuals && f.docAddBumpsLinks
 
 /-- the sufficient flags, with the three redundant ones left open -/
 def Flags.goodWith (b1 b2 b3 : Bool) : Flags :=
@@ -455,14 +458,22 @@ def setKidsOp (fl : Flags) (n : Id) (ks : List Id) (s : St) : St :=
   afterKidsEdit fl.simpleSetNodesResetsNodeCache fl.familySetNodesResetsCaches n
     { s with heap := setKids s.heap n ks }
 
-/-- `Document.AddNode` of a freshly allocated childless record -/
-def docAppend (fl : Flags) (r : NodeRec) (s : St) : St :=
+/-- `Document.AddNode` of a freshly allocated childless record, up to the last statement -/
+def docAppend0 (fl : Flags) (r : NodeRec) (s : St) : St :=
   let c := s.heap.length
   { s with
     heap := s.heap ++ [r]
     roots := s.roots ++ [c]
     ptrIdx := if fl.docAddStoresPointer && !r.ptr.isEmpty then (r.ptr, c) :: s.ptrIdx else s.ptrIdx
     dfams := if r.tag == tFAM && fl.docAddClearsFamilies then none else s.dfams }
+
+/-- `Document.AddNode` of a freshly allocated childless record — of any tag: a plain node made by
+    `NewNode`, or an INDI / FAM record made for this document elsewhere (`DeepCopy` of a record of
+    another document).  Its last statement is `doc.familyLinksVersion++` (fix
+    C13-addnode-bumps-family-links: without it an individual keeps spouses it remembered while a
+    HUSB/WIFE reference to the new record's pointer did not resolve). -/
+def docAppend (fl : Flags) (r : NodeRec) (s : St) : St :=
+  if fl.docAddBumpsLinks then bumpFamilyLinks (docAppend0 fl r s) else docAppend0 fl r s
 
 /-- `buildPointerCache` -/
 def buildIdx (a : Abs) : List (Str × Id) :=
@@ -732,7 +743,8 @@ inductive Op
   | deleteNodesWithTag (n : Id) (t : Str)
   /-- `n.SetNodes(ks)`, `ks` drawn from the current children -/
   | setNodes (n : Id) (ks : List Id)
-  /-- `doc.AddNode(NewNode(tag, value, ptr))`, same tag restriction, pointer not used by an individual -/
+  /-- `doc.AddNode(record)`: `NewNode(tag, value, ptr)` for a plain tag, or an INDI / FAM record built
+      for this document elsewhere (`gedcom.DeepCopy(recordOfAnotherDocument, doc)`); any pointer -/
   | docAddNode (tag value ptr : Str)
   | addIndividual (ptr : Str)
   | addFamily (ptr : Str)
@@ -834,7 +846,7 @@ def Op.ok (a : Abs) : Op → Bool
   | .deleteNode n _ => n < a.heap.length
   | .deleteNodesWithTag n _ => n < a.heap.length
   | .setNodes n ks => n < a.heap.length && ks.all (fun k => (a.kids n).contains k)
-  | .docAddNode t _ p => plainTag t && ptrFreeOfIndi a p
+  | .docAddNode t _ _ => !(t == tHUSB || t == tWIFE || t == tCHIL)
   | .addIndividual _ => true
   | .addFamily p => ptrFreeOfIndi a p
   | .addFamilyHW p h w =>
